@@ -404,7 +404,7 @@ class Engine(TorchDispatchMode):
         flat, _ = tree_flatten((args, kwargs))
         tens = [a for a in flat if isinstance(a, torch.Tensor)]
         for a in tens:
-            if getattr(a, "symlen", None) is not None and name not in ("masked_scatter", "masked_scatter_"):
+            if getattr(a, "symlen", None) is not None and name not in ("masked_scatter", "masked_scatter_", "new_full", "new_empty", "new_zeros", "new_ones"):
                 raise Unsupported(f"lazy masked_select result consumed by {name}")
         if name in self.stubs:
             args = tree_map(self.wrap, args)
